@@ -110,6 +110,9 @@ theorem isExternalRaw_spec (cfg : Cfg) (hw : cfg.wf = true) (h : Str) :
       simp only [isExternalIp_render a hwa]
       simp [Except.map, external, destAddr, hp, h6, hr]
     | gaierror => simp [external, destAddr, hp, h6, hr]
+    | oserror => simp [external, destAddr, hp, h6, hr]
+    | herror => simp [external, destAddr, hp, h6, hr]
+    | timeout => simp [external, destAddr, hp, h6, hr]
     | unicodeErr => simp [hp, h6]
 
 /-- A destination whose classification raises has no known address: the Spec does not route it. -/
@@ -438,6 +441,12 @@ theorem adv_rel (cfg : Cfg) (s : St) (r : Ref) (d : Nat) (h : Rel cfg s r) :
   obtain ⟨h1, h2, h3, h4⟩ := h
   exact ⟨h1, h2, fun hk => isOpen_mono cfg r s.now (s.now + d) (h3 hk) (by omega), h4⟩
 
+theorem decide_rel (cfg : Cfg) (hw : cfg.wf = true) (s : St) (r : Ref) (h : Str) (hdr : Hdr)
+    (hrel : Rel cfg s r) :
+    Rel cfg { s with cache := (isAllowed cfg (mkFilter cfg) s.cache h hdr).2 } r := by
+  obtain ⟨h1, h2, h3, h4⟩ := hrel
+  exact ⟨h1, h2, h3, (isAllowed_spec cfg hw s.cache h4 h hdr).2⟩
+
 theorem run_holds (cfg : Cfg) (hw : cfg.wf = true) (is : List Input) :
     ∀ (s : St) (r : Ref), Rel cfg s r → holdsFrom cfg r (run cfg s is) = true := by
   induction is with
@@ -452,6 +461,44 @@ theorem run_holds (cfg : Cfg) (hw : cfg.wf = true) (is : List Input) :
       obtain ⟨h1, _, h3⟩ := call_spec cfg hw s r hrel c
       simp only [run, step, holdsFrom, Bool.and_eq_true]
       exact ⟨h3, ih _ _ h1⟩
+    | decide h hdr =>
+      simp only [run, step]
+      exact ih _ _ (decide_rel cfg hw s r h hdr hrel)
+
+/-- Every direct question to the filter, asked anywhere in a run, is answered by the routing rule. -/
+theorem runDec_ok (cfg : Cfg) (hw : cfg.wf = true) (is : List Input) :
+    ∀ (s : St) (r : Ref), Rel cfg s r → decisionsOk cfg (runDec cfg s is) = true := by
+  induction is with
+  | nil => intro s r _; rfl
+  | cons i is ih =>
+    intro s r hrel
+    cases i with
+    | adv d =>
+      simp only [runDec, step]
+      exact ih _ _ (adv_rel cfg s r d hrel)
+    | call c =>
+      obtain ⟨h1, _, _⟩ := call_spec cfg hw s r hrel c
+      simp only [runDec, step]
+      exact ih _ _ h1
+    | decide h hdr =>
+      have hd := (isAllowed_spec cfg hw s.cache hrel.cache h hdr).1
+      have := ih _ _ (decide_rel cfg hw s r h hdr hrel)
+      simp only [runDec, step, decisionsOk, List.all_cons, Bool.and_eq_true, beq_iff_eq]
+      exact ⟨hd, this⟩
+
+/-- A resolver failure of any modelled kind is "cannot classify": not external, nothing cached. -/
+theorem isExternal_of_resolver_failure (cfg : Cfg) (c : Cache) (h : Str)
+    (hv : validateIp h = false) (hc : cacheGet c h = none)
+    (hr : ∀ a, cfg.resolve h ≠ .ip a) : isExternal cfg c h = (false, c) := by
+  unfold isExternal isExternalRaw isExternalDomain
+  simp only [hc, hv, Bool.false_eq_true, if_false]
+  cases hres : cfg.resolve h with
+  | ip a => exact absurd hres (hr a)
+  | gaierror => rfl
+  | oserror => rfl
+  | herror => rfl
+  | timeout => rfl
+  | unicodeErr => rfl
 
 /-! ### consequences of the Spec predicate on histories -/
 
@@ -559,5 +606,31 @@ theorem unclassifiable_not_external (cfg : Cfg) (h : Str)
       | some ip => simp [validateIp, hp] at hv
     have h6 : isIPv6 h = false := by simpa [validateIp, hp] using hv
     simp [hp, h6, hr]
+
+/-- No IPv4 literal and no resolved address: the Spec does not call the destination external. -/
+theorem external_false_of_no_addr (cfg : Cfg) (h : Str) (hp : parseIPv4 h = none)
+    (hr : ∀ a, cfg.resolve h ≠ .ip a) : external cfg h = false := by
+  have hd : destAddr cfg h = none := by
+    unfold destAddr
+    simp only [hp]
+    split
+    · rfl
+    · cases hres : cfg.resolve h with
+      | ip a => exact absurd hres (hr a)
+      | _ => rfl
+  simp [external, hd]
+
+theorem isAllowed_of_resolver_failure (cfg : Cfg) (c : Cache) (h : Str) (hdr : Hdr)
+    (hh : hdrOverride hdr = none) (ha : (mkFilter cfg).allow = none)
+    (hv : validateIp h = false) (hc : cacheGet c h = none)
+    (hr : ∀ a, cfg.resolve h ≠ .ip a) :
+    isAllowed cfg (mkFilter cfg) c h hdr = (false, c) := by
+  unfold isAllowed
+  simp only [hh, ha]
+  split
+  · rfl
+  · split
+    · exact isExternal_of_resolver_failure cfg c h hv hc hr
+    · rfl
 
 end LunarVerif.C19
